@@ -3,6 +3,7 @@ package c18
 import (
 	"fmt"
 	"sort"
+	"strconv"
 	"strings"
 
 	"pgregory.net/rapid"
@@ -388,7 +389,22 @@ func (g *gen) constDecl() {
 		g.label("const-untyped-rune")
 	case 6:
 		n := g.name(exp, "CS")
-		g.decls = append(g.decls, fmt.Sprintf("const %s = %s", n, untypedStrings[g.pick("string", len(untypedStrings))]))
+		lit := untypedStrings[g.pick("string", len(untypedStrings))]
+		if g.chance("genstring", 2) {
+			// a drawn string of any length up to a few hundred bytes (long
+			// usage texts and tables are ordinary exported constants)
+			alphabet := []rune("abcxyz 0123456789-_.,:;/\"\\\n\t'`%世é\x00")
+			minLen := []int{0, 0, 30, 60, 66, 70, 74, 100, 250}[g.pick("strlen", 9)]
+			r := rapid.StringOfN(rapid.RuneFrom(alphabet), minLen, minLen+12, -1).Draw(g.t, "strval")
+			if g.chance("rawbytes", 4) {
+				r += string(rapid.SliceOfN(rapid.Byte(), 1, 8).Draw(g.t, "strbytes"))
+			}
+			lit = strconv.Quote(r)
+			if len(r) > 70 {
+				g.label("const-untyped-string-long")
+			}
+		}
+		g.decls = append(g.decls, fmt.Sprintf("const %s = %s", n, lit))
 		g.label("const-untyped-string")
 	case 7:
 		n := g.name(exp, "CT")
